@@ -8,7 +8,7 @@ namespace Skv
 
 /-! ### strictly ascending lists are determined by their members -/
 
-theorem sorted_ext : ∀ (a b : List Nat), a.Pairwise (· < ·) → b.Pairwise (· < ·) →
+theorem sorted_ext_nat : ∀ (a b : List Nat), a.Pairwise (· < ·) → b.Pairwise (· < ·) →
     (∀ x, x ∈ a ↔ x ∈ b) → a = b
   | [], [], _, _, _ => rfl
   | [], y :: ys, _, _, h => by
@@ -31,7 +31,7 @@ theorem sorted_ext : ∀ (a b : List Nat), a.Pairwise (· < ·) → b.Pairwise (
           omega
     subst hxy
     have : xs = ys := by
-      apply sorted_ext xs ys ha.2 hb.2
+      apply sorted_ext_nat xs ys ha.2 hb.2
       intro z
       constructor
       · intro hz
@@ -47,15 +47,15 @@ theorem sorted_ext : ∀ (a b : List Nat), a.Pairwise (· < ·) → b.Pairwise (
     rw [this]
 
 /-- `np.unique` depends on the set of values only -/
-theorem unique_congr {a b : List Nat} (h : ∀ x, x ∈ a ↔ x ∈ b) : unique a = unique b := by
-  apply sorted_ext _ _ (pairwise_unique a) (pairwise_unique b)
+theorem unique_congr_dof {a b : List Nat} (h : ∀ x, x ∈ a ↔ x ∈ b) : unique a = unique b := by
+  apply sorted_ext_nat _ _ (pairwise_unique a) (pairwise_unique b)
   intro x
   rw [mem_unique, mem_unique]
   exact h x
 
 /-- `np.unique` of a strictly ascending list is the list -/
-theorem unique_of_sorted {a : List Nat} (h : a.Pairwise (· < ·)) : unique a = a := by
-  apply sorted_ext _ _ (pairwise_unique a) h
+theorem unique_of_sorted_dof {a : List Nat} (h : a.Pairwise (· < ·)) : unique a = a := by
+  apply sorted_ext_nat _ _ (pairwise_unique a) h
   intro x
   exact mem_unique
 
@@ -72,7 +72,7 @@ theorem mem_gatherUnique {table : List (List Nat)} {ix : List Nat} {v : Nat} :
 theorem gatherUnique_congr {table : List (List Nat)} {a b : List Nat}
     (h : ∀ x, x ∈ a ↔ x ∈ b) : gatherUnique table a = gatherUnique table b := by
   unfold gatherUnique
-  apply unique_congr
+  apply unique_congr_dof
   intro v
   simp only [List.mem_flatMap, List.mem_map]
   constructor
@@ -160,7 +160,7 @@ theorem flatten_congr {c : DofCounts} {tp : Topo} {v w : View}
     (he : ∀ x, x ∈ v.edgeIx ↔ x ∈ w.edgeIx) (hi : ∀ x, x ∈ v.interiorIx ↔ x ∈ w.interiorIx) :
     v.flatten c tp = w.flatten c tp := by
   unfold View.flatten
-  apply unique_congr
+  apply unique_congr_dof
   intro x
   obtain ⟨h1, h2, h3, h4⟩ := hr
   simp only [List.mem_append]
@@ -212,7 +212,7 @@ theorem nodup_firstOccs (l : List String) : (firstOccs l).Nodup := by
 
 /-! ### complement -/
 
-theorem mem_complementRange {n : Nat} {D : List Nat} {x : Nat} :
+theorem mem_complementRange_dof {n : Nat} {D : List Nat} {x : Nat} :
     x ∈ complementRange n D ↔ x < n ∧ x ∉ D := by
   simp [complementRange]
 
@@ -338,12 +338,12 @@ theorem sum_take_add_lt (f : ElemNames → Nat) :
     simp only [List.take_succ_cons, List.map_cons, List.sum_cons]
     omega
 
-theorem sum_map_congr (f g : ElemNames → Nat) :
+theorem sum_map_congr_dof (f g : ElemNames → Nat) :
     ∀ (cs : List ElemNames), (∀ e ∈ cs, f e = g e) → (cs.map f).sum = (cs.map g).sum
   | [], _ => rfl
   | e :: es, h => by
     simp only [List.map_cons, List.sum_cons]
-    rw [h e (by simp), sum_map_congr f g es (fun e' he' => h e' (by simp [he']))]
+    rw [h e (by simp), sum_map_congr_dof f g es (fun e' he' => h e' (by simp [he']))]
 
 theorem length_replicateNames (k : Nat) (l : List String) :
     (replicateNames k l).length = k * l.length := by
